@@ -262,6 +262,7 @@ type loopInfo struct {
 	hdrVals  map[ssa.Value]Val
 	measure0 string
 	entryNext string // allocation counter when the loop was entered (loopBound() in its invariants)
+	preState  *State // state in which the loop was entered, before the havoc (loopentry(e) in its clauses)
 }
 
 func (c *FnCtx) subset(format string, a ...interface{}) { subsetf(format, a...) }
